@@ -1636,7 +1636,12 @@ class BuiltinMixin:
                 if empty:
                     out.append(self.raised(s, "ValueError", "empty separator"))
                 else:
-                    out.append((s, s.alloc(HList(seq=z3.Function("str_split", S, S, SeqU)(sv.t, sep.t)))))
+                    sq = z3.Function("str_split", S, S, SeqU)(sv.t, sep.t)
+                    # s.split(sep) with a non-empty separator always has at least one piece, and the
+                    # pieces are strings (CPython: ''.split(',') == [''])
+                    s.assume(z3.Length(sq) >= 1)
+                    s.assume(U.is_str(sq[0]))
+                    out.append((s, s.alloc(HList(seq=sq))))
             return out
         return [(st, st.alloc(HList(seq=z3.Function("str_split_ws", S, SeqU)(sv.t))))]
 
